@@ -382,6 +382,9 @@ func levelReps(lv *levels, ops []string) []string {
 	return reps
 }
 
+// deep is set for the thorough tier (5-operator chains over the level representatives in addition)
+var deep bool
+
 func generate(lv *levels, thorough bool, emit func(tcase)) {
 	ops := infixOps(lv)
 	reps := levelReps(lv, ops)
@@ -424,6 +427,11 @@ func generate(lv *levels, thorough bool, emit func(tcase)) {
 				for _, o3 := range reps {
 					for _, o4 := range reps {
 						emit(tcase{"F2x4", []tok{id(0), infix(o1), id(1), infix(o2), id(2), infix(o3), id(3), infix(o4), id(4)}})
+						if deep {
+							for _, o5 := range reps {
+								emit(tcase{"F2x5", []tok{id(0), infix(o1), id(1), infix(o2), id(2), infix(o3), id(3), infix(o4), id(4), infix(o5), atom("f", "f")}})
+							}
+						}
 					}
 				}
 			}
@@ -693,7 +701,8 @@ func run(c *core.Ctx) {
 		bi++
 		batch = batch[:0]
 	}
-	generate(lv, c.Thorough(), func(tc tcase) {
+	deep = c.Thorough()
+	generate(lv, true, func(tc tcase) {
 		p, e := prepare(lv, tc)
 		if e != "" {
 			c.HarnessError("%s", e)
